@@ -186,6 +186,12 @@ func (p *Core) nextHonest(ps *PktState, stale bool) []sim.Op {
 			ops, top := p.ensureProvable(ps.Src, ch)
 			return append(ops, sim.Op{K: "closec", P: ps.Route, X: int64(1 - ps.Dir), M: top})
 		}
+		if r.Half && ps.Dir == 0 && (p.draining || w.Chance(0.35)) {
+			// the destination end is still TRYOPEN: an honest relayer completes the handshake first
+			// (a hasty one, most of the time, tries the packet anyway)
+			ops, top := p.ensureProvable(r.Chain[0], r.AckedAt)
+			return append(ops, sim.Op{K: "conf", P: ps.Route, M: top})
+		}
 		// timed out on the destination?
 		var ops []sim.Op
 		top := ps.Dst.Height
@@ -335,6 +341,11 @@ func (p *Core) Gen(w *sim.World) []sim.Op {
 				return ops
 			}
 		case 4:
+			if w.Chance(0.3) {
+				if ops := p.genBoundaryRecv(); ops != nil {
+					return ops
+				}
+			}
 			if ops := p.genEarlyTimeout(); ops != nil {
 				return ops
 			}
@@ -508,6 +519,79 @@ func (p *Core) genEarlyTimeout() []sim.Op {
 		kind = "toc"
 	}
 	return []sim.Op{{K: kind, T: ps.Tag, M: h}}
+}
+
+// genBoundaryRecv aims a receive at the exact block in which the packet's timeout is reached on
+// the destination: header time == timeout (v2: the first nanosecond of the timeout second), one
+// nanosecond earlier or later, or block height == timeout height / one below; then the source is
+// offered the timeout proven at that very block.
+func (p *Core) genBoundaryRecv() []sim.Op {
+	w := p.w
+	var cand []*PktState
+	for _, ps := range p.inflight() {
+		if ps.RecvHeight == 0 && !ps.Local && ps.Src != ps.Dst && len(ps.Dst.Mempool) == 0 {
+			cand = append(cand, ps)
+		}
+	}
+	if len(cand) == 0 {
+		return nil
+	}
+	ps := cand[w.Intn(len(cand))]
+	dst, src := ps.Dst, ps.Src
+	var ops []sim.Op
+	top := src.Height
+	for top < ps.SentAt+1 || top-1 < src.MinVersion {
+		ops = append(ops, blkOp(src.Idx, time.Second))
+		top++
+	}
+	spent := time.Duration(len(ops)) * time.Second
+	var tns int64 // timeout as nanoseconds on the destination's clock (0 = none)
+	if ps.V2 {
+		tns = int64(ps.P2.TimeoutTimestamp) * int64(time.Second)
+	} else {
+		tns = int64(ps.P1.TimeoutTimestamp)
+	}
+	th := int64(0)
+	if !ps.V2 {
+		th = int64(ps.P1.TimeoutHeight.RevisionHeight)
+	}
+	dstNow := p.chainTime(dst.Idx).Add(spent)
+	if dst.LastTime.After(dstNow) {
+		return nil
+	}
+	recv := sim.Op{K: "recv", T: ps.Tag, M: top, X: flagDefer}
+	byTime := tns > dstNow.UnixNano()+2 && tns-dstNow.UnixNano() < int64(12*time.Hour)
+	byHeight := th > dst.Height+1 && th-dst.Height <= 8
+	if byTime && byHeight {
+		if w.Chance(0.5) {
+			byTime = false
+		} else {
+			byHeight = false
+		}
+	}
+	switch {
+	case byTime:
+		delta := []int64{0, 0, -1, 1}[w.Intn(4)]
+		if th != 0 && th <= dst.Height+1 {
+			return nil
+		}
+		d := tns - dstNow.UnixNano() + delta
+		ops = append(ops, recv, blkOp(dst.Idx, time.Duration(d)), blkOp(dst.Idx, time.Second),
+			sim.Op{K: "tmo", T: ps.Tag, M: dst.Height + 1})
+		w.Stats.Probe(fmt.Sprintf("receive_aimed_at_timeout_time_%+d", delta))
+	case byHeight:
+		// blocks on the destination until the receive would execute at height th or th-1
+		at := th - int64(w.Intn(2))
+		for h := dst.Height + 1; h < at; h++ {
+			ops = append(ops, blkOp(dst.Idx, time.Second))
+		}
+		ops = append(ops, recv, blkOp(dst.Idx, time.Second), blkOp(dst.Idx, time.Second), sim.Op{K: "tmo", T: ps.Tag, M: at})
+		w.Stats.Probe(fmt.Sprintf("receive_aimed_at_timeout_height_%+d", at-th))
+	default:
+		return nil
+	}
+	w.Stats.Fault("relay.race")
+	return ops
 }
 
 func (p *Core) genClose() []sim.Op {
